@@ -60,6 +60,7 @@ pub const TREE_SEEDS: &[Seed] = &[
     s("san-bishops", "4k3/8/8/8/8/8/1B3B2/4K3 w - - 0 1", 2, 3, "two bishops (promoted-like, same colour complex) reach the same square"),
     s("underpromo", "8/5P1k/8/8/8/8/8/K7 w - - 0 1", 2, 4, "promotions, under-promotion check patterns"),
     s("underpromo-mate", "7k/5P2/6K1/8/8/8/8/8 w - - 0 1", 2, 3, "promotion with capture-free mate / stalemate distinctions"),
+    s("underpromo-knight-mates", "7b/5Ppk/7p/8/8/1B6/8/6K1 w - - 0 1", 2, 3, "promoting to a knight is mate, promoting to a queen is not (a coordinate pair must still give the queen)"),
     s("double-check", "4k3/8/8/8/8/8/4N3/4RK2 w - - 0 1", 2, 4, "knight moves discover check, some give double check"),
     s("pinned-pieces", "4k3/8/8/8/1b6/2N5/3P4/r2BK2R w K - 0 1", 2, 4, "absolute pins on diagonal and rank"),
     s("in-check-single", "4k3/8/8/8/8/8/3PPP2/r3K3 w - - 0 1", 2, 4, "in check, very few legal moves"),
@@ -612,4 +613,128 @@ pub fn ep_only_reply() -> (Vec<Pos>, Vec<Pos>) {
         b.extend(y);
     }
     (a, b)
+}
+
+/// "Castle-shaped" moves by pieces that are not castling: a rook or queen of the side to move
+/// standing on e1 or e8 and sliding two files (to the c- or g-file), in positions where the mover
+/// still holds some castling rights (own king and rooks at home) — including a piece on the
+/// OPPONENT's king square — plus the same with the king itself castling. Every subset of the
+/// mover's rights, both colours, both squares, both directions.
+pub fn castle_shaped_moves() -> Vec<Pos> {
+    let mut out = Vec::new();
+    for mover in [Side::White, Side::Black] {
+        let opp = mover.other();
+        let (home_r, far_r) = if mover == Side::White { (0i8, 7i8) } else { (7i8, 0i8) };
+        let (kbit, qbit) = if mover == Side::White { (WK, WQ) } else { (BK, BQ) };
+        for rights in 0..4u8 {
+            for pk in [Kind::Rook, Kind::Queen] {
+                // the slider stands on the far e-square (the opponent's king home); the opponent's king is elsewhere
+                for opp_king in [mk_sq(1, far_r - (far_r - home_r).signum() * 2).unwrap(), mk_sq(6, far_r - (far_r - home_r).signum() * 3).unwrap()] {
+                    let mut p = Pos::empty();
+                    p.stm = mover;
+                    p.sq[mk_sq(4, home_r).unwrap() as usize] = Some((Kind::King, mover));
+                    p.sq[mk_sq(0, home_r).unwrap() as usize] = Some((Kind::Rook, mover));
+                    p.sq[mk_sq(7, home_r).unwrap() as usize] = Some((Kind::Rook, mover));
+                    p.sq[mk_sq(4, far_r).unwrap() as usize] = Some((pk, mover));
+                    p.sq[opp_king as usize] = Some((Kind::King, opp));
+                    p.castle = (if rights & 1 != 0 { kbit } else { 0 }) | (if rights & 2 != 0 { qbit } else { 0 });
+                    if p.is_consistent() {
+                        out.push(p.clone());
+                    }
+                    // the same with an enemy piece to capture on the g- / c-file of the far rank
+                    for tf in [2i8, 6] {
+                        let mut q = p.clone();
+                        let t = mk_sq(tf, far_r).unwrap();
+                        if q.sq[t as usize].is_none() {
+                            q.sq[t as usize] = Some((Kind::Knight, opp));
+                            if q.is_consistent() {
+                                out.push(q);
+                            }
+                        }
+                    }
+                }
+            }
+            // a slider of the mover on its OWN e-square with the king off it (no rights then), and
+            // the opponent still holding rights at home
+            for pk in [Kind::Rook, Kind::Queen] {
+                let mut p = Pos::empty();
+                p.stm = mover;
+                p.sq[mk_sq(4, home_r).unwrap() as usize] = Some((pk, mover));
+                p.sq[mk_sq(3, home_r + (far_r - home_r).signum() * 2).unwrap() as usize] = Some((Kind::King, mover));
+                p.sq[mk_sq(4, far_r).unwrap() as usize] = Some((Kind::King, opp));
+                p.sq[mk_sq(0, far_r).unwrap() as usize] = Some((Kind::Rook, opp));
+                p.sq[mk_sq(7, far_r).unwrap() as usize] = Some((Kind::Rook, opp));
+                let (okbit, oqbit) = if opp == Side::White { (WK, WQ) } else { (BK, BQ) };
+                p.castle = (if rights & 1 != 0 { okbit } else { 0 }) | (if rights & 2 != 0 { oqbit } else { 0 });
+                if p.is_consistent() {
+                    out.push(p);
+                }
+            }
+        }
+    }
+    out
+}
+
+/// Two pawns of the side to move that can capture-promote on the SAME square (they stand two
+/// files apart on their seventh rank, an enemy piece between them on the last rank), exactly one
+/// of them pinned so that its capture is illegal. Enumerated: colour x target file x target kind
+/// x mover king square x pinning piece (Q, R, B) x its square, enemy king in a far corner; kept
+/// when the model says that exactly one of the two capture-promotions is legal.
+pub fn convergent_promotions() -> Vec<Pos> {
+    use rayon::prelude::*;
+    let jobs: Vec<(Side, i8)> = [Side::White, Side::Black].iter().flat_map(|s| (1..7i8).map(move |f| (*s, f))).collect();
+    let res: Vec<Vec<Pos>> = jobs
+        .par_iter()
+        .map(|(mover, f)| {
+            let opp = mover.other();
+            let (r7, r8) = if *mover == Side::White { (6i8, 7i8) } else { (1i8, 0i8) };
+            let a = mk_sq(f - 1, r7).unwrap();
+            let b = mk_sq(f + 1, r7).unwrap();
+            let t = mk_sq(*f, r8).unwrap();
+            let mut out = Vec::new();
+            for tk in [Kind::Knight, Kind::Bishop, Kind::Rook, Kind::Queen] {
+                for ks in 0..64u8 {
+                    if [a, b, t].contains(&ks) {
+                        continue;
+                    }
+                    for ok in [0u8, 7, 56, 63] {
+                        if [a, b, t, ks].contains(&ok) {
+                            continue;
+                        }
+                        for xs in 0..64u8 {
+                            if [a, b, t, ks, ok].contains(&xs) {
+                                continue;
+                            }
+                            for xk in [Kind::Queen, Kind::Rook, Kind::Bishop] {
+                                let mut p = Pos::empty();
+                                p.stm = *mover;
+                                p.sq[a as usize] = Some((Kind::Pawn, *mover));
+                                p.sq[b as usize] = Some((Kind::Pawn, *mover));
+                                p.sq[t as usize] = Some((tk, opp));
+                                p.sq[ks as usize] = Some((Kind::King, *mover));
+                                p.sq[ok as usize] = Some((Kind::King, opp));
+                                p.sq[xs as usize] = Some((xk, opp));
+                                // cheap pre-filter: the pinning piece must share a line with the king
+                                let (df, dr) = ((file_of(xs) - file_of(ks)).abs(), (rank_of(xs) - rank_of(ks)).abs());
+                                if !(df == 0 || dr == 0 || df == dr) {
+                                    continue;
+                                }
+                                if !p.is_consistent() {
+                                    continue;
+                                }
+                                let legal = p.legal_moves();
+                                let ca = legal.iter().any(|m| m.from == a && m.to == t);
+                                let cb = legal.iter().any(|m| m.from == b && m.to == t);
+                                if ca != cb {
+                                    out.push(p);
+                                }
+                            }
+                        }
+                    }
+                }
+            }
+            out
+        })
+        .collect();
+    res.into_iter().flatten().collect()
 }
